@@ -3,7 +3,7 @@ from pv import obs_classes as C
 
 KEYS = ['parso.python.tree._StringComparisonMixin.__eq__', 'parso.python.tree._StringComparisonMixin.__hash__',
         'parso.tree.Leaf.start_pos.setter', 'parso.tree.Leaf.start_pos', 'parso.tree.Leaf.get_code',
-        'parso.tree.BaseNode.get_code', 'parso.tree.BaseNode._get_code_for_children',
+        'parso.tree.BaseNode.get_code', 'parso.tree.BaseNode._get_code_for_children', 'parso.python.tree.Param.get_code',
         'parso.tree.Leaf.__init__', 'parso.tree.TypedLeaf.__init__', 'parso.tree.ErrorLeaf.__init__',
         'parso.tree.BaseNode.__init__', 'parso.tree.Node.__init__',
         # refactoring is an exact splice: the visit recursion computes the spec function rcode (contracts/refactor.py)
